@@ -18,6 +18,7 @@ ACT = {
     "nonmain_busy": "import time\nchannel.send('started')\ntime.sleep(1000)",
     "lockholder": "import time\nc = channel.gateway.newchannel()\nchannel.send(c)\nwhile c._items.qsize() == 0:\n    time.sleep(0.01)\nc.setcallback(lambda x: time.sleep(1000))",
     "lockholder_inflight": "import time\nc = channel.gateway.newchannel()\nchannel.send(c)\nwhile c._items.qsize() == 0:\n    time.sleep(0.01)\nc.setcallback(lambda x: time.sleep(1000))",
+    "main_idle_other_blocked": "channel.send('started')\nchannel.receive()",   # runs in a second thread; the main thread's body has ended meanwhile
     "transfer": "data = b'x' * (1 << 20)\nwhile 1:\n    channel.send(data)",
     "endmarker_raiser": "import time\ndef cb(x):\n    if x == 'END':\n        raise ValueError('callback fails on its endmarker')\nc = channel.gateway.newchannel()\nc.setcallback(cb, endmarker='END')\nchannel.send(c)\ntime.sleep(1000)",
     "callback_sysexit": "def cb(x):\n    raise SystemExit(3)\nc = channel.gateway.newchannel()\nc.setcallback(cb)\nchannel.send(c)\nchannel.receive()",
@@ -35,6 +36,15 @@ for i in range(n):
     pids.append(gw._rinfo().pid)
 chans = []
 for gw in gws:
+    if activity == "main_idle_other_blocked":
+        # the first body occupies the main thread until the second one runs in a thread of its own, then it ends: main thread idle again
+        c0 = gw.remote_exec("channel.receive()")
+        ch = gw.remote_exec(ACT[activity])
+        ch.receive(10)
+        c0.send(None)
+        c0.waitclose(10)
+        chans.append(ch)
+        continue
     if activity == "nonmain_busy":
         # two bodies: the first occupies the main thread harmlessly, the second runs in another thread
         c0 = gw.remote_exec("channel.receive()")
